@@ -9,8 +9,9 @@ block with 18001 groups, 32767 selectors, randomised blocks beyond the first fli
 binary must exit 0 with exactly the specified plaintext; only the two documented exceptions may be
 rejected.
 (M+G) spec/Imtf.tla, the decoder's sliding-lists inverse move-to-front, model-checked against the naive list and
-replayed through the real mtf_one() across pool rebuilds (no conforming file in the other legs is long enough
-in the general path to reach a rebuild: it takes 7936 front moves from positions >= 16)."""
+replayed through the real mtf_one() across pool rebuilds (a rebuild takes 7936 front moves from positions >= 16: at
+process level only the crafted 900000-byte blocks get there, and a wrong list then shows only as a CRC mismatch;
+the replay names the call and also checks where the rows lie in the pool)."""
 import random
 import vlib, sched, fmtsession, bzgen
 
